@@ -1317,7 +1317,7 @@ Example ex_state_RepInv : RepInv ex_state /\ commit_ok (abs ex_state)
 Proof. vm_compute. repeat split; fin. Qed.
 
 (* size-limited read on that state: one entry is returned although max = 0;
-   130 bytes admit only the first (4 bytes), 137 admit the second too *)
+   136 bytes allow only the first (4 bytes), 137 allow the second (133 bytes) too *)
 Example ex_state_entries :
   storage_entries ex_state 4 7 (Some 0) (CtxEmpty false)
     = Ok (ex_state, SOk [ex_entry 4 2 0])
